@@ -190,7 +190,11 @@ func (c *Ctx) otherGenerators(k int) {
 		try("triangulation.BowyerWatson", func() modeling.Mesh { return triangulation.BowyerWatson(pp) })
 	}
 	// marching cubes: a few small fields
-	for i := 0; i < 1+k/8; i++ {
+	nm := 1 + k/8
+	if nm > 16 {
+		nm = 16
+	}
+	for i := 0; i < nm; i++ {
 		r := 0.4 + c.Rng.Float64()
 		f := marching.Sphere(c.smallV3().Scale(0.25), r, 1)
 		if c.Rng.Intn(2) == 0 {
